@@ -168,6 +168,9 @@ class _Power:
     power: float
     """The power to be set for the inverter."""
 
+    lower_bound: float = 0.0
+    """The minimum power that can be set for the battery-inverters pair."""
+
 
 _InverterSet = frozenset[int]
 """A set of inverter IDs."""
@@ -537,6 +540,7 @@ class BatteryDistributionAlgorithm:
             distribution[inverter_set] = _Power(
                 upper_bound=incl_bound,
                 power=ratio_data.min_power,
+                lower_bound=ratio_data.min_power,
             )
 
         for inverter_ids, deficit in deficits.items():
@@ -600,9 +604,11 @@ class BatteryDistributionAlgorithm:
         undistributed: float = 0.0
 
         for inverter_ids, power in distribution.items():
+            set_points: dict[int, float] = {}
+            remaining_power = 0.0
             if len(inverter_ids) == 1:
                 inverter_id = next(iter(inverter_ids))
-                new_distribution[inverter_id] = power.power
+                set_points[inverter_id] = power.power
             else:
                 remaining_power = power.power
 
@@ -616,12 +622,22 @@ class BatteryDistributionAlgorithm:
                     ):
                         new_power = min(incl_bounds[inverter_id], remaining_power)
 
-                        new_distribution[inverter_id] = new_power
+                        set_points[inverter_id] = new_power
                         remaining_power -= new_power
                     else:
-                        new_distribution[inverter_id] = 0.0
+                        set_points[inverter_id] = 0.0
 
-                undistributed += remaining_power
+            # If the inverters cannot take the minimum power of the set (e.g. the
+            # battery exclusion bound), the set must not be used at all.
+            assigned = sum(set_points.values())
+            if assigned < power.lower_bound and not math.isclose(
+                assigned, power.lower_bound
+            ):
+                set_points = dict.fromkeys(set_points, 0.0)
+                remaining_power = power.power
+
+            new_distribution.update(set_points)
+            undistributed += remaining_power
 
         return new_distribution, undistributed
 
